@@ -138,6 +138,8 @@ def run(u, scratch, tier, repo, verif):
     harnesses = [h for h in u["harnesses"] if tier == "thorough" or h.get("tier", "quick") == "quick"]
     if not harnesses:
         return res
+    if res["engine"] == "kani-standalone":
+        return run_standalone(u, harnesses, res, scratch, tier, repo, verif, t0)
     try:
         dst, injected = prepare_copy(repo, scratch, u, verif)
     except Exception as e:
@@ -189,6 +191,9 @@ def run(u, scratch, tier, repo, verif):
             if p["covers"] and p["covers"][0] < p["covers"][1]:
                 res["infra"] = f"kani unit {u['name']}: harness {h['name']}: {p['covers'][1]-p['covers'][0]} cover(s) unsatisfied (vacuity guard)"
             res["vacuity"][h["name"]] = dict(covers=p["covers"])
+        elif p["status"] == "FAILED" and not p["failed"]:
+            ob["status"] = "undecided"
+            res["infra"] = f"kani unit {u['name']}: harness {h['name']}: CBMC failed without a failed check (out of memory / crash) — undecided"
         elif p["status"] == "FAILED":
             ob["status"] = "failed"
             if p["unwind_fail"] and all("unwinding" in d for d, _ in p["failed"]):
@@ -262,3 +267,86 @@ def playback(u, h, dst, env, flags, scratch):
         return txt
     except Exception as e:  # playback is best effort
         return None
+
+
+def run_standalone(u, harnesses, res, scratch, tier, repo, verif, t0):
+    """engine X: template (/verif/units/<t>.xu) -> stand-alone Rust file with the real items extracted
+    mechanically by vx.py next to trusted doubles -> `kani file.rs`."""
+    import vx
+    tpath = os.path.join(verif, u["template"])
+    try:
+        built = vx.build(open(tpath).read(), repo, u["name"])
+    except (vx.AnchorLost, vx.TemplateError, vx.LexError) as e:
+        res["infra"] = f"extraction failed for unit {u['name']}: {type(e).__name__}: {e}"
+        return res
+    d = os.path.join(scratch, "x", u["name"])
+    os.makedirs(d, exist_ok=True)
+    src = os.path.join(d, u["name"] + ".rs")
+    open(src, "w").write(built.text)
+    res["report"] = built.report
+    res["extra_assumptions"] += [f"doubles in {u['template']} (trusted text above the `extracted` marker)"]
+    env = dict(os.environ)
+    env["TMPDIR"] = os.path.join(scratch, "tmp")
+    os.makedirs(env["TMPDIR"], exist_ok=True)
+    flags = list(u.get("kani_flags", ["--solver", "kissat"]))
+    outs = {}
+    cmds = []
+    for h in harnesses:
+        cmd = ["kani", src] + flags + ["--harness", h["name"]]
+        cmds.append(" ".join(cmd))
+        rc, out, timed_out = _run(cmd, d, env, u.get("timeout_s", 1500), u.get("mem_gb"))
+        if timed_out:
+            subprocess.call(["pkill", "-x", "cbmc"], stderr=subprocess.DEVNULL)
+            res["infra"] = f"kani unit {u['name']}: harness {h['name']} timeout after {u.get('timeout_s', 1500)}s"
+            continue
+        open(os.path.join(scratch, f"kani_{u['name']}_{h['name']}.log"), "w").write(out)
+        parsed = parse_kani_output(out)
+        key = next((k for k in parsed if k.split("::")[-1] == h["name"]), None)
+        if key is None:
+            res["infra"] = f"kani unit {u['name']}: harness {h['name']} produced no result (does the extracted code still fit the doubles?): {out[-1200:]}"
+            continue
+        p = parsed[key]
+        props = h.get("props", u["props"])
+        ob = dict(name=f"{u['name']}::{h['name']}", props=props, backend="cbmc+" + _solver(flags), seconds=p["seconds"],
+                  kind="kani-harness", text=h.get("what", ""), checks=p["checks_total"], bound=h.get("bound"))
+        if p["status"] == "SUCCESSFUL":
+            ob["status"] = "discharged"
+            if p["covers"] and p["covers"][0] < p["covers"][1]:
+                res["infra"] = f"kani unit {u['name']}: harness {h['name']}: cover(s) unsatisfied (vacuity guard)"
+            res["vacuity"][h["name"]] = dict(covers=p["covers"])
+        elif p["status"] == "FAILED" and not p["failed"]:
+            ob["status"] = "undecided"
+            res["infra"] = f"kani unit {u['name']}: harness {h['name']}: CBMC failed without a failed check (out of memory / crash) — undecided"
+        elif p["status"] == "FAILED":
+            ob["status"] = "failed"
+            if p["unwind_fail"] and all("unwinding" in dd for dd, _ in p["failed"]):
+                res["infra"] = f"kani unit {u['name']}: harness {h['name']}: unwinding assertion failed — undecided"
+                ob["status"] = "undecided"
+            else:
+                labels = []
+                for dd, loc in p["failed"]:
+                    m = re.match(r"^\"?(C\d{2,3}\.[\w]+)", dd)
+                    if m and m.group(1) not in labels:
+                        labels.append(m.group(1))
+                owners = sorted({l.split(".")[0] for l in labels}) or list(props)
+                # concrete playback: print the counterexample as a unit test and run it natively
+                cex = None
+                try:
+                    rc2, out2, to2 = _run(["kani", src] + flags + ["--harness", h["name"], "-Z", "concrete-playback", "--concrete-playback=print"], d, env, u.get("timeout_s", 1500))
+                    m = re.search(r"(#\[test\]\s*fn kani_concrete_playback_\w+\(\) \{.*?\n\})", out2, re.S)
+                    if m:
+                        cex = "kani concrete playback (counterexample as a unit test over the extracted real code):\n" + m.group(1)
+                except Exception:
+                    pass
+                lab = "+".join(labels) if labels else "assertion"
+                res["failures"].append(dict(obligation=f"{u['name']}::{h['name']}::{lab}", labels=labels, owners=owners,
+                                            fn=h["name"], src="; ".join(f"{dd} @ {loc}" for dd, loc in p["failed"])[:600],
+                                            message="; ".join(dd for dd, _ in p["failed"])[:600], clause=h.get("what", ""),
+                                            rendered=p["body_tail"], counterexample=cex))
+        else:
+            ob["status"] = "undecided"
+            res["infra"] = f"kani unit {u['name']}: harness {h['name']} status {p['status']}: {p['body_tail'][-600:]}"
+        (res["obligations"] if h.get("complete", True) else res["bounded_obligations"]).append(ob)
+    res["cmd"] = " ; ".join(cmds)
+    res["wall"] = time.time() - t0
+    return res
